@@ -2388,6 +2388,9 @@ func (a *Authenticator) PerformTokenAuthenticationDemo(method AuthMethod, negoti
 	return a.performTokenAuthentication(context.Background(), method, negotiation)
 }
 
+// maxExchangedKeyLen bounds the wrapped session key a server may send in exchangeKey.
+const maxExchangedKeyLen = 1024 * 1024
+
 // exchangeKey performs the key exchange step following HTCondor's Authentication::exchangeKey
 // For modern HTCondor with AESGCM crypto, the server always sends an empty key
 func (a *Authenticator) exchangeKey(ctx context.Context, negotiation *SecurityNegotiation) error {
@@ -2436,7 +2439,10 @@ func (a *Authenticator) exchangeKey(ctx context.Context, negotiation *SecurityNe
 			slog.Info(fmt.Sprintf("🔑 CLIENT: Receiving key - length: %d, protocol: %d, duration: %d, inputLen: %d",
 				keyLength, protocol, duration, inputLen), "destination", "cedar")
 
-			// Read encrypted key data
+			// Read encrypted key data. The length is peer-supplied: bound it before sizing a buffer with it.
+			if inputLen < 0 || inputLen > maxExchangedKeyLen {
+				return fmt.Errorf("invalid encrypted key length %d", inputLen)
+			}
 			encryptedKey := make([]byte, inputLen)
 			for i := 0; i < inputLen; i++ {
 				b, err := msg.GetChar(ctx)
